@@ -254,10 +254,40 @@ Fixpoint split_lines (cur : list N) (s : list N) : list (list N) :=  (* cur reve
                else split_lines (c :: cur) s'
   end.
 
-(* `line.trim().is_empty()` on the ASCII white space (a line consisting only of non-ASCII
-   white space is not modelled; it never occurs in what the writer produces) *)
+(* `line.trim().is_empty()`: every character of the line has the Unicode property White_Space
+   (U+0009..U+000D, U+0020, U+0085, U+00A0, U+1680, U+2000..U+200A, U+2028, U+2029, U+202F,
+   U+205F, U+3000), read off the UTF-8 BYTES of the line:
+     C2 85 | C2 A0 | E1 9A 80 | E2 80 80..8A | E2 80 A8 | E2 80 A9 | E2 80 AF | E2 81 9F | E3 80 80 *)
 Definition is_ws (c : N) : bool := ((9 <=? c) && (c <=? 13)) || (c =? 32).
-Definition is_blank (l : list N) : bool := forallb is_ws l.
+Fixpoint is_blank (l : list N) : bool :=
+  match l with
+  | [] => true
+  | c :: r =>
+      if is_ws c then is_blank r
+      else if c =? 194 then
+        match r with
+        | d :: r2 => ((d =? 133) || (d =? 160)) && is_blank r2
+        | [] => false
+        end
+      else if c =? 225 then
+        match r with
+        | d :: e :: r3 => (d =? 154) && (e =? 128) && is_blank r3
+        | _ => false
+        end
+      else if c =? 226 then
+        match r with
+        | d :: e :: r3 =>
+            (((d =? 128) && (((128 <=? e) && (e <=? 138)) || (e =? 168) || (e =? 169) || (e =? 175)))
+             || ((d =? 129) && (e =? 159))) && is_blank r3
+        | _ => false
+        end
+      else if c =? 227 then
+        match r with
+        | d :: e :: r3 => (d =? 128) && (e =? 128) && is_blank r3
+        | _ => false
+        end
+      else false
+  end.
 
 Definition store : Type := list (list N * list N).   (* one bucket: key -> bytes *)
 
